@@ -45,19 +45,47 @@ def check_actor(ctx, facts):
         for r in root_local(body, direct, l):
             if ty_head(body.local_ty(r)) == 'alloc::collections::btree::map::BTreeMap':
                 M = r
+    def strip_ref(ty):
+        ty = ty.strip()
+        while ty.startswith('&'):
+            ty = ty[1:].lstrip()
+            if ty.startswith('mut '):
+                ty = ty[4:]
+            if ty.startswith("'") and ' ' in ty:
+                ty = ty.split(' ', 1)[1]
+        return ty
+    M_ty = None
     if M is None:
-        ctx.bad('C15.N1', 'layout-map', site(body), 'cannot identify the layout map handed to select_nodes (fail closed)')
-        return
+        # the layout lives in a field of the actor's state struct: identify it by its type (the one map handed to select_nodes)
+        for a in sel[1]['args']:
+            l = op_local(a)
+            if l is not None and ty_head(strip_ref(body.local_ty(l))) == 'alloc::collections::btree::map::BTreeMap':
+                M_ty = strip_ref(body.local_ty(l))
+        if M_ty is None:
+            ctx.bad('C15.N1', 'layout-map', site(body), 'cannot identify the layout map handed to select_nodes (fail closed)')
+            return
     hdr = [b for b, t in calls if cname(t) and 'recv_async' in cname(t)]
 
     def on_M(t):
         l = op_local(t['args'][0]) if t['args'] else None
-        return l is not None and M in referent_roots(body, l)
+        if l is None:
+            return False
+        if M is not None:
+            return M in referent_roots(body, l)
+        return strip_ref(body.local_ty(l)) == M_ty
+
+    def place_is(pl, ty_, root):
+        if root is not None:
+            return pl['l'] == root and not pl['p']
+        if not pl['p']:
+            return strip_ref(body.local_ty(pl['l'])) == ty_ and not body.local_ty(pl['l']).startswith('&')
+        last = pl['p'][-1]
+        return isinstance(last, dict) and last.get('ty') == ty_
     inserts = [(b, t) for b, t in calls if cname(t) == 'alloc::collections::btree::map::BTreeMap::insert' and on_M(t)]
     resets = [(b, t) for b, t in calls if cname(t) in ('alloc::collections::btree::map::BTreeMap::clear', 'alloc::collections::btree::map::BTreeMap::retain') and on_M(t)]
-    assigns = [(b, s) for b, j, s in body.assigns() if s['lhs']['l'] == M and not s['lhs']['p'] and b != 0
+    assigns = [(b, s) for b, j, s in body.assigns() if place_is(s['lhs'], M_ty, M) and b != 0
                and b in body.reachable_from(hdr)]
-    assigns += [(b, t) for b, t in calls if t['dest']['l'] == M and not t['dest']['p'] and b in body.reachable_from(hdr) and b not in hdr and b != 0
+    assigns += [(b, t) for b, t in calls if place_is(t['dest'], M_ty, M) and b in body.reachable_from(hdr) and b not in hdr and b != 0
                 and cname(t) != 'alloc::collections::btree::map::BTreeMap::new']
     # the update arm = the switch edge (on the op discriminant) dominating the map writes
     arm = None
@@ -91,16 +119,24 @@ def check_actor(ctx, facts):
                'membership stays in the map and its nodes keep being selected')
     # ---- N2 cache --------------------------------------------------------------------
     C = None
+    C_ty = None
     for b, t in calls:
         if cname(t) == 'std::collections::hash::map::HashMap::insert' and sel[1]['dest']['l'] in flow.backward([op_local(t['args'][-1])]):
             for r in root_local(body, direct, op_local(t['args'][0])):
                 if ty_head(body.local_ty(r)) == 'std::collections::hash::map::HashMap':
                     C = r
-    if C is None:
+            if C is None and ty_head(strip_ref(body.local_ty(op_local(t['args'][0])))) == 'std::collections::hash::map::HashMap':
+                C_ty = strip_ref(body.local_ty(op_local(t['args'][0])))
+    if C is None and C_ty is None:
         ctx.ok('C15.N2', 'cache', site(body), 'no result cache found (nothing to invalidate)', nontrivial=False)
     else:
-        clears = [b for b, t in calls if cname(t) == 'std::collections::hash::map::HashMap::clear' and C in referent_roots(body, op_local(t['args'][0]))]
-        clears += [b for b, j, s in body.assigns() if s['lhs']['l'] == C and not s['lhs']['p'] and body.edge_dominates(arm, b)]
+        def on_C(t):
+            l = op_local(t['args'][0])
+            if C is not None:
+                return C in referent_roots(body, l)
+            return strip_ref(body.local_ty(l)) == C_ty
+        clears = [b for b, t in calls if cname(t) == 'std::collections::hash::map::HashMap::clear' and on_C(t)]
+        clears += [b for b, j, s in body.assigns() if place_is(s['lhs'], C_ty, C) and body.edge_dominates(arm, b)]
         good = bool(clears) and body.must_pass([arm[1]], clears, hdr)
         ctx.ob('C15.N2', 'cache-cleared', good, site(body),
                'the selection cache is cleared on every path through the membership-update arm' if good else
@@ -179,6 +215,65 @@ def check_N3(ctx, facts):
                    'report NotEnoughNodes (or return fewer than the level requires) although enough live nodes exist — e.g. after earlier '
                    'selections advanced a cursor the list is skipped by' % ('drops elements through ' + ', '.join(sorted(set(d.split('::')[1] for d in drops))) if drops
                                                                            else 'carries a filter other than `item != local_node`'))
+    # push sites (loops instead of extend): the pushed address is guarded by `!= local_node`, or comes out of a buffer that is only
+    # filled through guarded sites
+    for g in grp:
+        if g.kind not in ('fn', 'method'):
+            continue
+        flow = Flow(g)
+        calls = list(g.calls())
+        pushes = [(b, t) for b, t in calls if cname(t) == 'smallvec::SmallVec::push' and 'core::net::socket_addr::SocketAddr' in g.local_ty(op_local(t['args'][0]))]
+        if not pushes:
+            continue
+        # locals holding the local node's address: the parameter named local_node and everything copied from it
+        names = g.local_names()
+        ln = {l for l, nm in names.items() if nm == 'local_node'}
+        if not ln:
+            continue
+        ln_fw = flow.forward(list(ln), stop=[0])
+        guarded = {}
+        for b, t in pushes:
+            v = op_local(t['args'][1])
+            vb = flow.backward([v]) if v is not None else set()
+            ok_g = False
+            for c in list(comparisons(g)) + list(all_comparisons(g)):
+                if c['lhs'] is None or c['rhs'] is None or c['rel'] not in ('==', '!='):
+                    continue
+                la, lb = flow.backward([c['lhs']]), flow.backward([c['rhs']])
+                one_local = bool(la & ln_fw) != bool(lb & ln_fw)
+                other = lb if (la & ln_fw) else la
+                if not one_local or not (other & vb or vb & flow.forward(list(other), stop=[0])):
+                    continue
+                ne_edge = c.get('true_edge') if c['rel'] == '!=' else c.get('false_edge')
+                if ne_edge is not None and g.edge_dominates(ne_edge, b):
+                    ok_g = True
+            guarded[(b, id(t))] = ok_g
+        roots_ok = set()
+        for _round in range(3):
+            by_root = {}
+            for b, t in pushes:
+                for r_ in referent_roots(g, op_local(t['args'][0])):
+                    by_root.setdefault(r_, []).append((b, t))
+            for r_, sites in by_root.items():
+                if all(guarded[(b, id(t))] for b, t in sites):
+                    roots_ok.add(r_)
+            for b, t in pushes:
+                if guarded[(b, id(t))]:
+                    continue
+                v = op_local(t['args'][1])
+                cut = flow.backward([v], stop=list(roots_ok)) if v is not None else set()
+                raw = [l for l in cut if l not in roots_ok and ('NodeCycler' in g.local_ty(l) or l in range(1, g.argc + 1) and 'BTreeMap' in g.local_ty(l))]
+                if (cut & roots_ok) and not raw:
+                    guarded[(b, id(t))] = True
+        for b, t in pushes:
+            if g.name.endswith('select_n_nodes') or (t.get('inl') or '').endswith('select_n_nodes'):
+                continue        # the share-based pass: its pushes are value-dependent (DESIGN §5 C15), covered by N4 / N6
+            n += 1
+            idx = len([o for o in ctx.obs if o.rule == 'C15.N3' and o.key.startswith('push#')])
+            good = guarded[(b, id(t))]
+            ctx.ob('C15.N3', 'push#%d' % idx, good, site(g, t['cs']),
+                   'the pushed address is guarded by `!= local_node` (or comes from a buffer filled only through guarded pushes)' if good else
+                   'a node address is pushed into the selection without a `!= local_node` guard: the local node can be returned as its own replica')
     ctx.floor('C15.N3', 'bulk collection sites', n, 4)
 
 
